@@ -1,5 +1,4 @@
 import Logrange.Model.RdOffset
-import Logrange.Generated.C03
 /-!
 # `Querier.Query` and the cursor provider as far as paging sees it
 
@@ -93,11 +92,9 @@ def applyState (h : Held) (qtext : Nat) (p : PosText) : Option Held :=
   if h.pos = p then some h else
   match p with
   | .map m =>
-    let c := applyStatePos h.cur m
-    -- the repair of F22 (a regenerated fact while it is only proposed): the fiterator's cached event and the mixers'
-    -- selections are dropped by a direction switch there and back
-    let c := if Generated.C03.applyStateDropsBuffers then curSetBackward (curSetBackward c true) false else c
-    some { h with pos := p, cur := c }
+    -- 0706090: after the journal iterators were moved the wrapping iterators forget what they buffered at the old
+    -- position (the fiterator's cached event, the mixers' selections): `SetBackward(true); SetBackward(false)`
+    some { h with pos := p, cur := curSetBackward (curSetBackward (applyStatePos h.cur m) true) false }
   | _ => none      -- "", head, tail do not parse as `name=pos`
 
 /-- the read loop of `Query` -/
